@@ -150,7 +150,8 @@ inductive PC where
   | apFill (tgt n : Nat)                   -- plain: fill the target buffer
   | apPlace (i r : Nat)                    -- plain: remaining packets into the new buffer
   | crashed (r : Nat)                      -- add_photons found no free buffer (undefined behaviour)
-  | freeReset (i : Nat)                    -- plain: PhotonBuffer::reset
+  | freeReset (i : Nat)                    -- plain: PhotonBuffer::reset  (free_buffer wipes FIRST)
+  | freeYield (i : Nat)                    -- plain: point between the wipe and the release (hook)
   | freeUnlock (i : Nat)                   -- cas_unlock _locks[i]
   | freeDec (i : Nat)                      -- pre_decrement _number_taken
   -- ThreadLock
@@ -349,7 +350,10 @@ def exec (cfg : Cfg) (m : Mem) (th : Thread) : Mem × Thread :=
   | .crashed _ => (m, th)
   | .freeReset i =>
     -- _memory_space[index].reset();
-    ({ m with count := upd m.count i 0 }, { th with pc := .freeUnlock i, disc := th.disc + m.count i })
+    ({ m with count := upd m.count i 0 }, { th with pc := .freeYield i, disc := th.disc + m.count i })
+  | .freeYield i =>
+    -- _memory_space.free_element(index);  (… then releases)
+    (m, { th with pc := .freeUnlock i })
   | .freeUnlock i =>
     -- _locks[index].unlock();
     ({ m with flags := upd m.flags i false }, { th with pc := .freeDec i })
@@ -498,7 +502,7 @@ def init (progs : List (List Cmd)) : State :=
 def Thread.silent (th : Thread) : Bool :=
   match th.pc with
   | .idle => !th.prog.isEmpty
-  | .apFill _ _ | .apPlace _ _ | .freeReset _ | .tlStart _ _ | .tuStart _ | .addBody _ _ _ | .popInit _
+  | .apFill _ _ | .apPlace _ _ | .freeReset _ | .freeYield _ | .tlStart _ _ | .tuStart _ | .addBody _ _ _ | .popInit _
   | .popScan _ _ | .popRemove _ _ _ | .qsz _ => true
   | _ => false
 
